@@ -1451,32 +1451,34 @@ Proof. reflexivity. Qed.
 (* ------------------------------------------------------------------------------------- *)
 
 (* dispatch of wb_sheet on the record kinds the writer emits *)
-Lemma wb_sheet_bof : forall d c rest tbl fp cells,
-  wb_sheet (Ok (2057, d, c) :: rest) tbl fp cells = wb_sheet rest tbl fp cells.
+(* the sheet's own BOF opens substream 1; the cell records of the sheet run at depth 1 *)
+Lemma wb_sheet_bof : forall d c rest tbl fp cells dep,
+  wb_sheet (Ok (2057, d, c) :: rest) tbl fp cells dep = wb_sheet rest tbl fp cells (dep + 1).
 Proof. reflexivity. Qed.
 Lemma wb_sheet_eof : forall d c rest tbl fp cells,
-  wb_sheet (Ok (10, d, c) :: rest) tbl fp cells = Ok cells.
+  wb_sheet (Ok (10, d, c) :: rest) tbl fp cells 1 = Ok cells.
 Proof. reflexivity. Qed.
 Lemma wb_sheet_labelsst : forall d c rest tbl fp cells,
-  wb_sheet (Ok (253, d, c) :: rest) tbl fp cells =
+  wb_sheet (Ok (253, d, c) :: rest) tbl fp cells 1 =
   do x <- parse_label_sst d tbl;
-  wb_sheet rest tbl fp (cells ++ match x with Some x => [x] | None => [] end).
+  wb_sheet rest tbl fp (cells ++ match x with Some x => [x] | None => [] end) 1.
 Proof. reflexivity. Qed.
 Lemma wb_sheet_label : forall d c rest tbl fp cells,
-  wb_sheet (Ok (516, d, c) :: rest) tbl fp cells =
+  wb_sheet (Ok (516, d, c) :: rest) tbl fp cells 1 =
   do x <- parse_label d;
-  wb_sheet rest tbl fp (cells ++ match x with Some x => [x] | None => [] end).
+  wb_sheet rest tbl fp (cells ++ match x with Some x => [x] | None => [] end) 1.
 Proof. reflexivity. Qed.
 Lemma wb_sheet_string : forall d c rest tbl fp cells,
-  wb_sheet (Ok (519, d, c) :: rest) tbl fp cells =
+  wb_sheet (Ok (519, d, c) :: rest) tbl fp cells 1 =
   do s <- string_arm d c;
-  wb_sheet rest tbl fp (cells ++ [(fst fp, snd fp, s)]).
+  wb_sheet rest tbl fp (cells ++ [(fst fp, snd fp, s)]) 1.
 Proof. reflexivity. Qed.
 Lemma wb_sheet_formula_stub : forall row col c rest tbl fp cells,
-  wb_sheet (Ok (6, formula_stub_body row col 15, c) :: rest) tbl fp cells =
-  wb_sheet rest tbl (row, col) cells.
+  wb_sheet (Ok (6, formula_stub_body row col 15, c) :: rest) tbl fp cells 1 =
+  wb_sheet rest tbl (row, col) cells 1.
 Proof.
-  intros. cbn [wb_sheet]. change (6 =? 253) with false. change (6 =? 516) with false.
+  intros. cbn [wb_sheet]. change (6 =? 2057) with false. change (1 <? 1) with false. cbv iota.
+  change (6 =? 253) with false. change (6 =? 516) with false.
   change (6 =? 519) with false. change (6 =? 6) with true. cbv iota.
   unfold formula_stub_body at 1.
   replace (len (formula_stub_body row col 15) <? 20) with false by reflexivity.
@@ -1521,7 +1523,7 @@ Qed.
 
 Lemma sheet_cells_ok : forall cells later tbl fp acc,
   forallb legal_cell cells = true -> starts_continue later = false ->
-  wb_sheet (records (flat_map cell_records cells ++ eof_rec ++ later)) tbl fp acc =
+  wb_sheet (records (flat_map cell_records cells ++ eof_rec ++ later)) tbl fp acc 1 =
   Ok (acc ++ flat_map (cell_text tbl) cells).
 Proof.
   induction cells as [|c cells IH]; intros later tbl fp acc Hl Hlater.
@@ -1561,13 +1563,36 @@ Qed.
 
 Lemma sheet_stream_ok : forall sh later tbl,
   forallb legal_cell (sh_cells sh) = true -> starts_continue later = false ->
-  wb_sheet (records (sheet_stream sh ++ later)) tbl (0, 0) [] =
+  wb_sheet (records (sheet_stream sh ++ later)) tbl (0, 0) [] 0 =
   Ok (flat_map (cell_text tbl) (sh_cells sh)).
 Proof.
   intros sh later tbl Hl Hlater. unfold sheet_stream. rewrite <- !app_assoc.
   rewrite records_plain; [| len_small | apply (cells_not_continue _ later Hl)].
-  rewrite wb_sheet_bof. fold eof_rec.
+  rewrite wb_sheet_bof. change (0 + 1) with 1. fold eof_rec.
   rewrite (sheet_cells_ok _ later tbl (0, 0) [] Hl Hlater). reflexivity.
+Qed.
+
+(* a substream nested in the sheet (the chart of an embedded chart object: BOF, its records —
+   among them LABEL / STRING / FORMULA records of the series cache —, EOF) contributes no text cell
+   and does not end the sheet (fix of audit-2 finding XLS-2, modelled by [depth]) *)
+Definition plain_inner (r : outcome rec_item) : Prop :=
+  exists t d c, r = Ok (t, d, c) /\ t <> 2057 /\ t <> 10.
+Lemma wb_sheet_inner_skipped : forall inner rest tbl fp cells,
+  Forall plain_inner inner ->
+  wb_sheet (inner ++ rest) tbl fp cells 2 = wb_sheet rest tbl fp cells 2.
+Proof.
+  induction inner as [|r inner IH]; intros rest tbl fp cells H; [reflexivity|].
+  inversion H as [|? ? (t & d & c & -> & Hb & He) Hin]; subst.
+  cbn [app wb_sheet]. replace (t =? 2057) with false by lia. change (1 <? 2) with true. cbv iota.
+  replace (t =? 10) with false by lia. apply IH, Hin.
+Qed.
+Lemma wb_sheet_nested_skipped : forall d0 c0 inner d1 c1 rest tbl fp cells,
+  Forall plain_inner inner ->
+  wb_sheet (Ok (2057, d0, c0) :: inner ++ Ok (10, d1, c1) :: rest) tbl fp cells 1 =
+  wb_sheet rest tbl fp cells 1.
+Proof.
+  intros. rewrite wb_sheet_bof. change (1 + 1) with 2.
+  rewrite (wb_sheet_inner_skipped inner _ tbl fp cells H). reflexivity.
 Qed.
 
 (* ------------------------------------------------------------------------------------- *)
@@ -1585,8 +1610,9 @@ Definition sheets_len (shs : list sheet_spec) : N := len (flat_map sheet_stream 
 Lemma wb_globals_bof : forall c rest sh st,
   wb_globals (Ok (2057, bof_body 5, c) :: rest) sh st = wb_globals rest sh st.
 Proof. reflexivity. Qed.
-Lemma wb_globals_codepage : forall c rest sh st,
-  wb_globals (Ok (66, le16 1200, c) :: rest) sh st = wb_globals rest sh st.
+(* the CodePage arm under the BIFF8 BOF: any value of the record is without effect *)
+Lemma wb_globals_codepage : forall v c rest sh st,
+  wb_globals (Ok (66, le16 v, c) :: rest) sh st = wb_globals rest sh st.
 Proof. reflexivity. Qed.
 Lemma wb_globals_bsheet : forall d c rest sh st,
   wb_globals (Ok (133, d, c) :: rest) sh st =
@@ -1678,8 +1704,8 @@ Proof.
   rewrite (IH (p + len (sheet_stream sh)) (q + len (sheet_stream sh))).
   f_equal.
 Qed.
-Lemma len_globals_indep : forall p q strs lay shs,
-  len (globals_stream p strs lay shs) = len (globals_stream q strs lay shs).
+Lemma len_globals_indep : forall cp p q strs lay shs,
+  len (globals_stream cp p strs lay shs) = len (globals_stream cp q strs lay shs).
 Proof.
   intros. unfold globals_stream. rewrite !len_app. rewrite (len_boundsheets_indep shs p q).
   reflexivity.
@@ -1695,25 +1721,26 @@ Proof. destruct cs; reflexivity. Qed.
 (* C12 through the whole (reduced) parse_workbook: sheet names and every text cell — LABELSST
    cells resolved through the shared-string table read across its CONTINUE records, LABEL cells,
    formula STRING values — are what the writer stored *)
-Theorem wb_strings_ok : forall strs lay shs,
-  legal_workbook strs lay shs = true ->
-  wb_strings (workbook_stream strs lay shs) = Ok (wb_spec strs shs).
+Theorem wb_strings_ok : forall cp strs lay shs,
+  legal_workbook cp strs lay shs = true ->
+  wb_strings (workbook_stream cp strs lay shs) = Ok (wb_spec strs shs).
 Proof.
-  intros strs lay shs Hl. unfold legal_workbook in Hl.
+  intros cp strs lay shs Hl. unfold legal_workbook in Hl.
+  apply andb_true_iff in Hl. destruct Hl as [Hl Hcp].
   apply andb_true_iff in Hl. destruct Hl as [Hl Htot].
   apply andb_true_iff in Hl. destruct Hl as [Hl Hshs].
   apply andb_true_iff in Hl. destruct Hl as [Hl Hconts].
   apply andb_true_iff in Hl. destruct Hl as [Hlay Hdata].
   unfold workbook_stream in *.
-  set (g0 := len (globals_stream 0 strs lay shs)) in *.
-  assert (Hg0 : len (globals_stream g0 strs lay shs) = g0)
+  set (g0 := len (globals_stream cp 0 strs lay shs)) in *.
+  assert (Hg0 : len (globals_stream cp g0 strs lay shs) = g0)
     by (unfold g0 at 2; apply len_globals_indep).
   assert (Hpos : g0 + sheets_len shs <= 4294967295).
   { rewrite len_app, Hg0 in Htot. unfold sheets_len. lia. }
   unfold wb_strings.
   set (S := flat_map sheet_stream shs) in *.
   set (st := sst_encode strs lay) in *.
-  assert (Hglob : wb_globals (records (globals_stream g0 strs lay shs ++ S)) [] [] =
+  assert (Hglob : wb_globals (records (globals_stream cp g0 strs lay shs ++ S)) [] [] =
                   Ok (metas g0 shs, map utf16_decode strs)).
   { unfold globals_stream. rewrite <- !app_assoc. fold st.
     assert (HncS : starts_continue S = false) by apply sheets_not_continue.
@@ -1721,11 +1748,24 @@ Proof.
       by (apply frame_not_continue; [lia | len_small]).
     assert (Hnc_sst : starts_continue (frame_sst st ++ frame 10 [] ++ S) = false).
     { unfold frame_sst. rewrite <- app_assoc. apply frame_not_continue; lia. }
+    assert (Hnc_bs : starts_continue (boundsheets g0 shs ++ frame_sst st ++ frame 10 [] ++ S)
+                     = false) by (apply boundsheets_not_continue; assumption).
+    destruct cp as [v|]; cbn [codepage_rec app].
+    2: { rewrite records_plain; [| len_small | exact Hnc_bs]. rewrite wb_globals_bof.
+         rewrite (globals_boundsheets shs g0 _ [] [] Hshs Hpos Hnc_sst). cbn [app].
+         assert (Hd : len (fst st) <= 65535) by (apply N.leb_le; exact Hdata).
+         assert (Hne : frame 10 [] ++ S <> []) by (unfold frame, le16; cbn [app]; discriminate).
+         rewrite (records_step _ _ _ (next_record_sst st (frame 10 [] ++ S) Hd Hconts Hne Hnc_eof)).
+         rewrite wb_globals_sst.
+         rewrite conts_of_opt, pair_eta. unfold st at 1. rewrite (sst_any_split strs lay Hlay).
+         cbn [obind].
+         rewrite records_plain; [| len_small | exact HncS].
+         rewrite wb_globals_eof. reflexivity. }
     rewrite records_plain;
       [| len_small | apply frame_not_continue; [lia | len_small]].
     rewrite wb_globals_bof.
     rewrite records_plain;
-      [| len_small | apply boundsheets_not_continue; assumption].
+      [| len_small | exact Hnc_bs].
     rewrite wb_globals_codepage.
     rewrite (globals_boundsheets shs g0 _ [] [] Hshs Hpos Hnc_sst). cbn [app].
     assert (Hd : len (fst st) <= 65535) by (apply N.leb_le; exact Hdata).
@@ -1736,10 +1776,28 @@ Proof.
     rewrite records_plain; [| len_small | exact HncS].
     rewrite wb_globals_eof. reflexivity. }
   rewrite Hglob. cbn [obind].
-  pose proof (wb_sheets_ok shs (globals_stream g0 strs lay shs) _ (map utf16_decode strs)
+  pose proof (wb_sheets_ok shs (globals_stream cp g0 strs lay shs) _ (map utf16_decode strs)
                 eq_refl Hshs) as Hs.
   rewrite Hg0 in Hs. fold S in Hs. rewrite Hs. reflexivity.
 Qed.
+
+(* The CodePage record of a BIFF8 workbook decides nothing (audit-2 finding XLS-1, repaired):
+   at the level of the globals loop — a CodePage record with ANY body of at least two bytes (any
+   code page, trailing bytes, CONTINUE records) is skipped — and at the level of whole workbooks —
+   two legal workbooks that differ only in the record (its value, or its presence) read
+   identically. *)
+Lemma wb_globals_codepage_any : forall d c rest sh st, 2 <= len d ->
+  wb_globals (Ok (66, d, c) :: rest) sh st = wb_globals rest sh st.
+Proof.
+  intros d c rest sh st H. cbn [wb_globals]. change (66 =? 47) with false.
+  change (66 =? 66) with true. cbv iota.
+  replace (len d <? 2) with false by lia. reflexivity.
+Qed.
+
+Theorem wb_strings_codepage_irrelevant : forall cp cp' strs lay shs,
+  legal_workbook cp strs lay shs = true -> legal_workbook cp' strs lay shs = true ->
+  wb_strings (workbook_stream cp strs lay shs) = wb_strings (workbook_stream cp' strs lay shs).
+Proof. intros. rewrite !wb_strings_ok by assumption. reflexivity. Qed.
 
 (* ------------------------------------------------------------------------------------- *)
 (** * totality: no panic site and no fuel exhaustion is reachable, on any input            *)
@@ -1896,9 +1954,7 @@ Proof.
   destruct r as [[[t d] c]|e| |]; cbn [wb_globals].
   - destruct (t =? 47); [split; discriminate|].
     destruct (t =? 66).
-    { destruct (len d <? 2) eqn:E; [split; discriminate|].
-      destruct (read_u16_total d) as (cp & ->); [lia|]. cbn [obind].
-      destruct (cp =? 1200); [apply IH; assumption | split; discriminate]. }
+    { destruct (len d <? 2) eqn:E; [split; discriminate | apply IH; assumption]. }
     destruct (t =? 2057).
     { destruct (len d <? 2) eqn:E; [split; discriminate|].
       destruct (read_u16_total (take 2 d)) as (v & ->); [rewrite len_take; lia|]. cbn [obind].
@@ -1913,22 +1969,27 @@ Proof.
         try (split; discriminate).
       apply IH; assumption. }
     destruct (t =? 10); [split; discriminate|].
-    match goal with |- context [if ?b then _ else _] => destruct b end;
-      [split; discriminate | apply IH; assumption].
+    destruct (t =? 34); [destruct (len d <? 2); [split; discriminate | apply IH; assumption]|].
+    destruct (t =? 1054); [destruct (len d <? 5); [split; discriminate | apply IH; assumption]|].
+    destruct (t =? 224); [destruct (len d <? 4); [split; discriminate | apply IH; assumption]|].
+    destruct (t =? 23); [destruct (len d <? 2); [split; discriminate | apply IH; assumption]|].
+    destruct (t =? 24); [split; discriminate | apply IH; assumption].
   - split; discriminate.
   - exfalso. apply HP. left. reflexivity.
   - exfalso. apply HF. left. reflexivity.
 Qed.
 
-Lemma wb_sheet_total : forall recs strings fp cells,
+Lemma wb_sheet_total : forall recs strings fp cells dep,
   ~ In Panic recs -> ~ In OutOfFuel recs ->
-  wb_sheet recs strings fp cells <> Panic /\ wb_sheet recs strings fp cells <> OutOfFuel.
+  wb_sheet recs strings fp cells dep <> Panic /\ wb_sheet recs strings fp cells dep <> OutOfFuel.
 Proof.
-  induction recs as [|r recs IH]; intros strings fp cells HP HF; [split; discriminate|].
+  induction recs as [|r recs IH]; intros strings fp cells dep HP HF; [split; discriminate|].
   assert (HP' : ~ In Panic recs) by (intros H; apply HP; right; exact H).
   assert (HF' : ~ In OutOfFuel recs) by (intros H; apply HF; right; exact H).
   destruct r as [[[t d] c]|e| |]; cbn [wb_sheet].
-  - destruct (t =? 253).
+  - destruct (t =? 2057); [apply IH; assumption|].
+    destruct (1 <? dep); [apply IH; assumption|].
+    destruct (t =? 253).
     { pose proof (no_panic_parse_label_sst d strings) as [H1 H2].
       destruct (parse_label_sst d strings); cbn [obind]; try congruence;
         try (split; discriminate).
@@ -1948,6 +2009,8 @@ Proof.
       destruct (read_u16_total (drop 2 d)) as (col & ->); [rewrite len_drop; lia|]. cbn [obind].
       apply IH; assumption. }
     destruct (t =? 10); [split; discriminate|].
+    destruct (t =? 512);
+      [destruct ((len d =? 10) || (len d =? 14)); [apply IH; assumption | split; discriminate]|].
     match goal with |- context [if ?b then _ else _] => destruct b end;
       [split; discriminate | apply IH; assumption].
   - split; discriminate.
@@ -1962,8 +2025,8 @@ Proof.
   cbn [wb_sheets]. unfold get_from. destruct (pos <=? len stream); [|split; discriminate].
   cbn [obind].
   destruct (no_panic_record_iter (drop pos stream)) as (_ & _ & H3 & H4).
-  pose proof (wb_sheet_total (records (drop pos stream)) strings (0, 0) [] H3 H4) as [H1 H2].
-  destruct (wb_sheet (records (drop pos stream)) strings (0, 0) []); cbn [obind];
+  pose proof (wb_sheet_total (records (drop pos stream)) strings (0, 0) [] 0 H3 H4) as [H1 H2].
+  destruct (wb_sheet (records (drop pos stream)) strings (0, 0) [] 0); cbn [obind];
     try congruence; try (split; discriminate).
   pose proof (IH stream strings) as [I1 I2].
   destruct (wb_sheets stream strings l); cbn [obind]; try congruence; split; discriminate.
@@ -2066,8 +2129,25 @@ Definition ex_sheets : list sheet_spec :=
             CFString 6 2 true [55357; 56832] [];
             CFString 7 1 false [104; 55357; 56832; 233; 105] [(1%nat, true); (1%nat, true); (1%nat, false)]];
    mkSheet false [66] [CSst 5 5 2]].
+(* the same workbook under the code pages real BIFF8 writers declare (1200 Excel, 1252 JExcelApi,
+   932 / 65001 localised writers), one no decoder table knows (437 is not in the `codepage`
+   crate's table; 12345 is no code page at all) and without the record: all legal, all read as the
+   same text (wb_strings_ok); the stream with CodePage 1252 does contain the record *)
+Definition ex_codepages : list (option N) :=
+  [Some 1200; Some 1252; Some 932; Some 65001; Some 437; Some 12345; Some 0; Some 65535; None].
+Lemma example_workbook_codepages :
+  forallb (fun cp => legal_workbook cp ex_strs ex_lay ex_sheets) ex_codepages = true /\
+  Forall (fun cp => wb_strings (workbook_stream cp ex_strs ex_lay ex_sheets)
+                    = Ok (wb_spec ex_strs ex_sheets)) ex_codepages /\
+  firstn 10 (skipn 20 (workbook_stream (Some 1252) ex_strs ex_lay ex_sheets)) =
+    [66; 0; 2; 0; 228; 4; 133; 0; 14; 0].
+Proof.
+  split; [vm_compute; reflexivity|]. split; [|vm_compute; reflexivity].
+  repeat constructor; vm_compute; reflexivity.
+Qed.
+
 Lemma example_workbook :
-  legal_workbook ex_strs ex_lay ex_sheets = true /\
+  legal_workbook (Some 1252) ex_strs ex_lay ex_sheets = true /\
   wb_spec ex_strs ex_sheets =
   [([83; 20013], [(0, 0, [104; 233; 233; 128512; 122]); (2, 0, [65279; 20013; 97]);
                   (4, 1, [104; 105]); (6, 2, [128512]); (7, 1, [104; 128512; 233; 105])]);
